@@ -649,9 +649,12 @@ def c14(tier):
     jobs = [T("transformer", "VerifC14_CmpPair", {"N": W(tier, 2, 3)}), T("transformer", "VerifC14_CmpTriple", {"N": W(tier, 1, 2)}),
             T("transformer", "VerifC14_Canonical", {"N": n}, sched="all", prune=True),
             T("transformer", "VerifC14_Inert", {"N": n}),
+            T("transformer", "VerifC14_TypeOrder", {"N": n}),
+            T("transformer", "VerifC14_ManyRelations", {}, sched="rot", prune=True),
             T("transformer", "VerifC02_Names", {"N": 2}, sched="all", prune=True)]
     out = engine_a_check("C14", tier, jobs, {"VerifC14_CmpPair": ["less", "greater", "equal"], "VerifC14_CmpTriple": ["chain"],
-                                             "VerifC14_Canonical": ["printed"], "VerifC14_Inert": ["compared"], "VerifC02_Names": ["printed"]},
+                                             "VerifC14_Canonical": ["printed"], "VerifC14_Inert": ["compared"], "VerifC02_Names": ["printed"],
+                                             "VerifC14_TypeOrder": ["printed"], "VerifC14_ManyRelations": ["printed"]},
                          ["names/modules/files over small alphabets (the code only compares and copies bytes)",
                           "JSON key order reduces to map order (protojson not encoded)",
                           "file/module names containing a line break or ' #' are outside (property)"], "",
